@@ -262,7 +262,7 @@ class SymFloat(float):
         a = self.t
         if swap:
             a, b = b, a
-        return SymFloat(f(a, b))
+        return _rounded(f(a, b))
 
     def __add__(self, o):
         return self._bin(o, lambda a, b: a + b)
@@ -397,14 +397,34 @@ def _div(a, b):
     if term_is_num(b):
         if num_of(b) == 0:
             raise ZeroDivisionError('float division by zero')
-        return SymFloat(a / b)
+        return _rounded(a / b)
     if eng.div_check:
         if eng.decide(b == 0):
             raise ZeroDivisionError('float division by zero')
     else:
         eng.note_assumption('divisors are non-zero')
         eng.add_axiom(b != 0)
-    return SymFloat(a / b)
+    return _rounded(a / b)
+
+
+U53 = None
+
+
+def _rounded(t):
+    """standard model of floating point arithmetic (optional, Engine.fp_model): fl(x op y) = (x op y)(1+d),
+    |d| <= 2^-53 (no overflow/underflow)"""
+    eng = _ENGINE
+    if eng is None or not eng.fp_model:
+        return SymFloat(t)
+    global U53
+    if U53 is None:
+        U53 = realval(Fraction(1, 2 ** 53))
+    # additive form e = t*d: |e| <= u*|t| keeps the constraints linear whenever t is linear
+    e = eng.fresh_real('fpe')
+    eng.fp_ops += 1
+    a = z3.If(t >= 0, t, -t)
+    eng.add_axiom(z3.And(e <= U53 * a, e >= -U53 * a))
+    return SymFloat(t + e)
 
 
 def _mod(a, b):
@@ -534,7 +554,10 @@ class Engine:
     """one exploration of one harness function"""
 
     def __init__(self, rlimit: int = 3_000_000, timeout_ms: int = 20000,
-                 max_paths: int = 100000, max_decisions: int = 4000, div_check: bool = True):
+                 max_paths: int = 100000, max_decisions: int = 4000, div_check: bool = True,
+                 fp_model: bool = False):
+        self.fp_model = fp_model
+        self.fp_ops = 0
         self.rlimit = rlimit
         self.timeout_ms = timeout_ms
         self.max_paths = max_paths
@@ -602,6 +625,7 @@ class Engine:
         self.maybe_infeasible = False
         self.summaries = {}
         self.fresh_n = 0
+        self.fp_ops = 0
 
     def add_axiom(self, t):
         """definitional constraint / assumption: part of every later query on this path"""
